@@ -91,6 +91,15 @@ def rhs(items):
                 common = [t for t in common if t != ()]
             else:
                 raise ValueError("undocumented literal position")
+        elif it[0] == "par1":
+            # `(1 + e)`: a parenthesised sum that carries an explicit intercept (documented for `1 + (x + y)` and kin)
+            terms = ev(it[1])
+            if sign == "+":
+                if () not in common:
+                    common.append(())
+                common = uniq_terms(common + terms)
+            else:
+                common = [t for t in common if t != () and not any(same(t, y) for y in terms)]
         elif it[0] == "grp":
             lead, e, g = it[1], it[2], it[3]
             eff = ev(e) if e is not None else []
@@ -160,6 +169,14 @@ def rhs_ordered(items):
                     common.append(())
             else:
                 common = [t for t in common if t != ()]
+        elif it[0] == "par1":
+            terms = ev_ordered(it[1])
+            if sign == "+":
+                if () not in common:
+                    common.append(())
+                common = uniq(common + terms)
+            else:
+                common = [t for t in common if t != () and t not in terms]
         elif it[0] == "grp":
             lead, e, g = it[1], it[2], it[3]
             eff = ev_ordered(e) if e is not None else []
@@ -220,6 +237,8 @@ def _r(renderer, t, right):
 def render_item(it, renderer=render_full, right=False):
     if it[0] == "lit":
         return it[1]
+    if it[0] == "par1":
+        return "(1 + " + _r(renderer, it[1], True) + ")"
     if it[0] == "grp":
         lead, e, g = it[1], it[2], it[3]
         parts = []
